@@ -12,7 +12,7 @@ import Selene.Scope.Spec
 /-!
 C04, half B (statement-level lints).  One command, `C04B.prog`:
 request `(chunk origin source token-texts expectation)`, implementation `(diagnostic…)` or `panic`,
-diagnostic = `(code (first last [s]) message (secondary-span…))`.
+diagnostic = `(code (first last) message (secondary-span…))`.
 
 * correspondence: the eight models' diagnostics = the implementation's (code, range, message, secondary labels);
 * specification: every implementation diagnostic is judged by the documented condition of its lint
@@ -33,7 +33,6 @@ deriving Repr
 
 def readSpan : Sexp → Option (Span × Bool)
   | .list [a, b] => do some (⟨← a.asNat?, ← b.asNat?⟩, false)
-  | .list [a, b, .atom "s"] => do some (⟨← a.asNat?, ← b.asNat?⟩, true)
   | _ => none
 
 def readDiag : Sexp → Option ImplDiag
@@ -46,7 +45,7 @@ def spanSx (s : Span) (atStart : Bool := false) : Sexp :=
   .list ([.atom (toString s.first), .atom (toString s.last)] ++ (if atStart then [.atom "s"] else []))
 
 def diagKey (d : Diag) : String :=
-  toString (Sexp.list [.str d.code, spanSx d.primary d.endAtStart, .str d.msg, .list (d.secondary.map (spanSx ·))])
+  toString (Sexp.list [.str d.code, spanSx d.primary, .str d.msg, .list (d.secondary.map (spanSx ·))])
 
 def sortStrs (l : List String) : List String := (l.toArray.qsort (· < ·)).toList
 
@@ -170,7 +169,7 @@ def handleProg : Handler := fun input impl =>
           | _ => none
         let eiFP := (of "empty_if").filterMap fun d =>
           let ok := ifs.any fun (sp, _, b, elifs, els) =>
-            (d.msg == EmptyIf.msgIf && d.primary == sp && !d.atStart && noStatements b) ||
+            (d.msg == EmptyIf.msgIf && d.primary == sp && noStatements b) ||
             (d.msg == EmptyIf.msgElseIf && sp.first < d.primary.first && d.primary.last ≤ sp.last &&
               elifs.any (fun e => (elifSpan e).first == d.primary.first && noStatements (elifBlock e))) ||
             (d.msg == EmptyIf.msgElse && d.primary.last == sp.last && sp.first < d.primary.first &&
@@ -349,7 +348,7 @@ def handleProg : Handler := fun input impl =>
             (if verdict == "neg" && reported then [s!"unexpected:{lint}:{family}:reported"] else [])
           | _ => []
         let tags := fired.map (fun c => s!"fired:{c}") ++ [s!"origin:{kind}"] ++ expTags ++
-          (if ids.any (fun d => d.code == "empty_if" && d.atStart) then ["empty-elseif-range"] else []) ++
+          (if ids.any (fun d => d.code == "empty_if" && d.msg == EmptyIf.msgElseIf) then ["empty-elseif"] else []) ++
           (if ids.any (fun d => d.code == "unbalanced_assignments" && !d.secs.isEmpty) then ["unbalanced-call-help"] else []) ++
           (if ids.any (fun d => d.code == "mismatched_arg_count" && d.secs.length > 1) then ["mismatched-multi-def"] else [])
         let perLint := codes.filterMap fun c =>
